@@ -343,6 +343,44 @@ def receiver(R, ctx):
     R.require(rid, "floor", n >= 40 and rewritten >= 8, ctx.where(fn), "%d shapes evaluated, %d rewritten" % (n, rewritten))
 
 
+def finder_monotone(R, ctx):
+    """The name finder the guards rely on over-approximates: once built, it never forgets a searched name nor a usage it has seen."""
+    rid = "C16.finder"
+    lib = ctx.lib
+    FV = "process::processors::find_identifier::FindVariables"
+    R.rule(rid, "who-may-write rule on FindVariables (the search that C16.merge and C16.local trust to find every textual use of a name): in "
+                "its NodeProcessor callbacks the list of searched names is never shrunk or reassigned (no retain / remove / pop / clear / "
+                "truncate / drain / assignment), and the found flag is only ever set from a comparison with the searched names (it cannot be "
+                "reset). A finder that drops a name at a redeclaration ignores scope ends and initialisers and misses real uses")
+    a = lib.adts.get(FV)
+    if not R.require(rid, "anchor:FindVariables", a is not None, "", "not found"):
+        return
+    names = [f["name"] for f in a["variants"][0]["fields"] if f["tys"].startswith("alloc::vec::Vec<") or "Set<" in f["tys"]]
+    flags = [f["name"] for f in a["variants"][0]["fields"] if f["tys"] == "bool"]
+    R.require(rid, "anchor:fields", len(names) >= 1 and len(flags) >= 1, ctx.adt_where(FV), "name containers %s, flags %s" % (names, flags))
+    cbs = [f for k, f in lib.fns.items() if k.startswith("<" + FV) and " as process::node_processor::NodeProcessor>::" in k and thir.body_of(f)]
+    R.require(rid, "floor:callbacks", len(cbs) >= 1, "", "%d NodeProcessor callbacks" % len(cbs))
+    SHRINK = {"retain", "retain_mut", "remove", "swap_remove", "pop", "clear", "truncate", "drain", "take", "dedup", "split_off", "extract_if"}
+    for f in cbs:
+        fa = ctx.an.fa(f["path"])
+        bad = []
+        for n in thir.walk(thir.body_of(f)):
+            if n.get("k") == "Call" and n.get("fname") in SHRINK and n["args"] and callee_of(n) not in lib.fns:
+                if any(o[0] == FV and o[1] in names for o in fa.origins(n["args"][0])):
+                    bad.append("%s on the searched names" % n["fname"])
+            if n.get("k") == "Call" and n.get("fname") in ("take", "replace", "swap") and "mem::" in (n.get("fn") or "") and n["args"]:
+                if any(o[0] == FV and o[1] in names for o in fa.origins(n["args"][0])):
+                    bad.append("mem::%s on the searched names" % n["fname"])
+            if n.get("k") in ("Assign", "AssignOp") and n["l"].get("k") == "Field" and n["l"].get("adt") == FV:
+                if n["l"].get("f") in names:
+                    bad.append("assignment to the searched names")
+                elif n["l"].get("f") in flags:
+                    r = n["r"]
+                    if r.get("k") == "Lit" and r.get("v") == "false":
+                        bad.append("the found flag is reset")
+        R.ob(rid, "%s|monotone" % f["path"].split("::")[-1], not bad, ctx.where(f), "; ".join(bad) if bad else "names and flag only grow")
+
+
 def run(R, ctx):
     R.explanation = (
         "The four anchored guards of the optional refactorings as guard-before-act / decision-table / subset rules on typed THIR, "
@@ -350,6 +388,7 @@ def run(R, ctx):
         "are not decided. Decision / transfer functions among these are decided by finite-domain evaluation of their typed tree (sa/peval.py): every point of a small abstract domain is evaluated and compared with the reference; nothing is sampled and no program input exists."
     )
     R.assumptions += ["FindVariables is trusted to find every textual use of a name (it over-approximates: shadowed uses count as uses)"]
+    finder_monotone(R, ctx)
     merge(R, ctx)
     local_function(R, ctx)
     self_param(R, ctx)
